@@ -60,6 +60,7 @@ import io
 import json
 import logging
 import os
+import sys
 import re
 import xml.etree.ElementTree as ET
 from argparse import Namespace
@@ -682,6 +683,51 @@ def valid_from_key(entry_text: str) -> tuple[int, ...] | None:
 
 
 # --------------------------------------------------------------------------------------
+# the locale of the process is part of the environment
+# --------------------------------------------------------------------------------------
+
+LOCALE_IDS = ["root-anchors-2030", "Kcl\u00e9_2024", "\u6839\u533a-anchor", "id \u2013 with dash", "\u00e4"]
+
+
+def locale_stream(r: Any, tier: str, res: Result) -> None:
+    """The same export in a CHILD interpreter whose locale is C with UTF-8 mode off (LC_ALL=C PYTHONUTF8=0 PYTHONCOERCECLOCALE=0:
+    the preferred encoding is ASCII) and, as the control, C.UTF-8 — with identifiers that contain non-ASCII characters (legal:
+    `--id` is free text, labels are `\\w`).  The document declares encoding UTF-8: what is written must not depend on the locale.
+    Judged like every other case (the file written, read with ElementTree, against dnspython's DS values)."""
+    import subprocess
+
+    cases = []
+    for i, ident in enumerate(LOCALE_IDS * (1 if tier == "quick" else 4)):
+        c = gen_case(r, 1 + i % 3)
+        c.update(id=ident, out=("arg" if i % 2 == 0 else "config"), variant="plain", pre=r.choice(["absent", "longer"]), plan={}, hsm=None)
+        cases.append(c)
+    for label, env in (("C", {"LC_ALL": "C", "LANG": "C", "PYTHONUTF8": "0", "PYTHONCOERCECLOCALE": "0"}), ("C.UTF-8", {"LC_ALL": "C.UTF-8", "LANG": "C.UTF-8", "PYTHONUTF8": "0"})):
+        code = (
+            "import sys, json; sys.path.insert(0, sys.argv[1]); import lib, corr_C18 as M; import locale\n"
+            "cases = json.loads(sys.stdin.buffer.read().decode('utf-8'))\n"
+            "out = [{k: v for k, v in M.run_case(c).items() if k in ('impl', 'doc', 'where', 'written', 'printed', 'log')} for c in cases]\n"
+            "sys.stdout.buffer.write(json.dumps({'encoding': locale.getpreferredencoding(False), 'runs': out}).encode('ascii'))\n"
+        )
+        e = dict(os.environ, **env)
+        cp = subprocess.run([sys.executable, "-c", code, str(lib.VERIF / "harness")], input=json.dumps(cases).encode("utf-8"), stdout=subprocess.PIPE, stderr=subprocess.PIPE, env=e, cwd=str(lib.VERIF), timeout=600)
+        if cp.returncode != 0:
+            res.disagreement("harness self-test: the child interpreter of the locale stream failed", {"locale": label}, cp.stderr.decode(errors="replace")[-600:], None)
+            continue
+        got = json.loads(cp.stdout.decode("ascii"))
+        res.bump(f"locale:{label}:preferred-encoding:{got['encoding']}")
+        if label == "C" and "utf" in got["encoding"].lower():
+            res.disagreement("harness self-test: the C-locale child still prefers UTF-8 (the locale stream would be vacuous)", {"locale": label}, got["encoding"], None)
+        for c, run_ in zip(cases, got["runs"]):
+            case = dict(c, locale=label)
+            res.count(case)
+            res.bump("variant:locale")
+            res.bump("outcome:" + ("ok" if "ok" in run_["impl"] else "error"))
+            if "ok" not in run_["impl"] and not c["plan"]:
+                res.violation("healthy token and configuration: the export failed under this locale", case, key=f"locale:{label}:failed", impl=run_["impl"], written={k: len(v) for k, v in run_["written"].items()})
+            judge(case, run_, res)
+
+
+# --------------------------------------------------------------------------------------
 # one case
 # --------------------------------------------------------------------------------------
 
@@ -1185,6 +1231,7 @@ def _run(tier: str, driver_ok: bool) -> Result:
             e = compare_std_read(case, run_["doc"], o if isinstance(o, (str, dict)) and "driver_error" not in o else {"driver_error": o}, res, tag)
             if tag == "export" and o != "outside" and not (isinstance(o, dict) and "tree" in o) and attr_clean(case["id"] or FIXED_UUID) and not case["plan"]:
                 res.disagreement("std_read: an export with a clean identifier is not read as a tree by the specification reader", case, e, o)
+    locale_stream(lib.rng("C18:locale"), tier, res)
     writer_direct_stream(lib.rng("C18:writer-direct"), 400 if tier == "quick" else 4000, res, driver_ok)
     res.notes.append(
         "std_read: every exported document, the hostile identifiers (variant boundary-id, counters stdread:hostile-id:*) and the documents of the real writer for generated anchors "
